@@ -6,7 +6,7 @@ use explore::driver::{CheckDef, Section};
 use explore::{digest, hist, CaseOut, Cx, HistSut, StepOut, Tier};
 use h_runtime::views::CVecView;
 use h_runtime::{alloc_violation, guarded, quiet_panics};
-use instr::{alloc, Dc, DropScope};
+use instr::{alloc, Dc, DcZst, DropScope};
 use serde::{Deserialize, Serialize};
 use serde_json::Value;
 use std::cell::Cell;
@@ -39,6 +39,30 @@ trait Elem: 'static + Sized {
     fn dup(&self) -> Self;
     fn id(&self) -> Option<usize> {
         None
+    }
+    /// extra per-step accounting for element types that count themselves (zero-sized with Drop)
+    fn live_check(_in_vec: usize) -> Result<(), String> {
+        Ok(())
+    }
+}
+/// zero-sized element with a destructor: constructions and drops are counted globally per thread
+impl Elem for DcZst {
+    const NAME: &'static str = "zst_drop";
+    fn make(_: u64) -> Self {
+        DcZst::new()
+    }
+    fn val(&self) -> u64 {
+        0
+    }
+    fn dup(&self) -> Self {
+        DcZst::new()
+    }
+    fn live_check(in_vec: usize) -> Result<(), String> {
+        let (n, d) = DcZst::stats();
+        if n - d != in_vec as u64 {
+            return Err(format!("{} zero-sized elements constructed, {} dropped, {} in the vector", n, d, in_vec));
+        }
+        Ok(())
     }
 }
 impl Elem for u8 {
@@ -215,6 +239,7 @@ impl<E: Elem + Clone> Sut<E> {
     /// The whole case; every divergence is returned as (signature, description).
     fn exec(&self, hist: &[Op], obs: &mut Vec<u64>) -> Result<(u64, Option<Vec<u64>>), (String, String)> {
         let drops = DropScope::new();
+        DcZst::reset();
         RESERVE_CALLS.with(|c| c.set(0));
         DROP_CALLS.with(|c| c.set(0));
         // leaked (not dropped) when a violation makes us return early
@@ -395,6 +420,9 @@ impl<E: Elem + Clone> Sut<E> {
                     bail2("vec:elem_leak", at(&format!("{} payloads alive but {} in the vector (counts {:?})", alive, live_ids, counts)))?;
                 }
             }
+            if let Err(m) = E::live_check(c.len()) {
+                bail2("vec:zst_elem_drops", at(&m))?;
+            }
             if alloc::events_so_far() != 0 {
                 bail2("alloc:event", at("allocator event"))?;
             }
@@ -416,6 +444,9 @@ impl<E: Elem + Clone> Sut<E> {
             if DROP_ARGS.with(|c| c.get()) != (p, l, cap) {
                 return Err(("vec:drop_fn_args".into(), format!("drop_fn called with {:?}, vector had (data,{},{})", DROP_ARGS.with(|c| c.get()), l, cap)));
             }
+        }
+        if let Err(m) = E::live_check(0) {
+            return Err(("vec:zst_elem_drops".into(), format!("after teardown: {}", m)));
         }
         let bad = drops.not_equal(1);
         if !bad.is_empty() {
@@ -477,13 +508,14 @@ fn section<E: Elem + Clone>(name: &'static str) -> Section {
 
 fn main() {
     quiet_panics();
-    let mut sections = vec![section::<u64>("u64"), section::<u8>("u8"), section::<Z>("zst"), section::<Dc>("dropcounter"), section::<Fat>("fat_heap")];
+    let mut sections = vec![section::<u64>("u64"), section::<u8>("u8"), section::<Z>("zst"), section::<Dc>("dropcounter"), section::<DcZst>("zst_drop"), section::<Fat>("fat_heap")];
     // the *_bfs sections replay through the same function
     let extra: Vec<Section> = vec![
         Section { name: "u64_bfs", explore: Box::new(|_| {}), replay: Box::new(|c| replay_with::<u64>(c, 6)) },
         Section { name: "u8_bfs", explore: Box::new(|_| {}), replay: Box::new(|c| replay_with::<u8>(c, 6)) },
         Section { name: "zst_bfs", explore: Box::new(|_| {}), replay: Box::new(|c| replay_with::<Z>(c, 6)) },
         Section { name: "dropcounter_bfs", explore: Box::new(|_| {}), replay: Box::new(|c| replay_with::<Dc>(c, 6)) },
+        Section { name: "zst_drop_bfs", explore: Box::new(|_| {}), replay: Box::new(|c| replay_with::<DcZst>(c, 6)) },
         Section { name: "fat_heap_bfs", explore: Box::new(|_| {}), replay: Box::new(|c| replay_with::<Fat>(c, 6)) },
     ];
     sections.extend(extra);
